@@ -28,6 +28,13 @@ abse() * factor(units()), factors from the published tables, mc/refmodels/quanti
                  factors, conversions and rebase; a nan uncertainty there is a failure (it is neither the sum nor the
                  scaled error); rele() is compared only on non-zero elements (undefined at 0)
 
+  scopes         histories of conversions under successive UnitEnvironment scopes that register the SAME custom symbol
+                 with different magnitudes (dict and Quantity definitions): in every scope an uncertain quantity is
+                 converted custom->m, m->custom, custom->prefixed custom, prefixed custom->cm, cm->custom with to()
+                 and added to / subtracted from a quantity in another unit; every conversion is judged with the
+                 factor of the CURRENT scope (abse scales like the value, rele unchanged, sums add); the whole
+                 history is one case, class-level state of scinumtools.units.* is restored between cases
+
 Not demanded (statement silent): the size of the uncertainty of a power, of a negation, and of c/q (exact divided
 by uncertain) - only non-negativity is checked there; the first-order bound for non-positive values; whether a
 result with one uncertain operand may report None for c/q, powers, negation.  Operands whose *constructed*
@@ -46,7 +53,9 @@ PROPERTY = "C08"
 LEVEL = "exploration"
 RULE = ("case = (operation, operands (value, uncertainty kind, unit), exact factor / exponent / target unit); every "
         "case of the stated alphabet is enumerated exactly once (case index modulo the shard count); non-trivial = "
-        "at least one operand carries an uncertainty (all-exact cases exercise only the 'exact result' clause)")
+        "at least one operand carries an uncertainty (all-exact cases exercise only the 'exact result' clause); a "
+        "scope history (successive UnitEnvironment scopes re-defining one custom symbol, all conversions inside) is "
+        "one case")
 ASSUMPTIONS = [
     "UNIT_PREFIXES / UNIT_STANDARD factors are the specification of the linear units used (m, cm, km, s, J, erg, ...)",
     "the operands' own uncertainties are read with abse()/rele() from freshly constructed, identical operands",
@@ -130,6 +139,17 @@ CHAIN_STEPS = [["add", 50.0, ["abse", 2.0], "cm"], ["add", 1.0, None, "m"], ["su
 CHAIN_UNITS = {"m": U_M, "cm": U_CM, "km": U_KM, "": U_NONE}
 CHAIN_DEPTH = dict(quick=3, thorough=4)
 
+# successive UnitEnvironment scopes registering the same custom symbol with another size (dict form with prefixes, or an
+# exact Quantity = no prefixes); the factor of the symbol in a scope is what that scope's definition says
+SCOPE_SYMBOL = "xx"
+SCOPE_DEFS = [["dict", 2.0], ["dict", 5.0], ["dict", 0.25], ["quantity", 7.0, "cm"]]
+SCOPE_HISTORY = dict(quick=2, thorough=3)       # every ordered pair / triple of distinct-adjacent definitions
+SCOPE_VALUES = [3.0, -0.25, [2.0, -4.0], [0.0, 2.0]]
+SCOPE_ERRORS = [["abse", 0.1], ["rele", 10.0], None]
+# (source unit, target unit); "k" needs a prefixed custom unit: only for dict definitions (prefixes allowed there)
+SCOPE_CONVERSIONS = [("xx", "m"), ("m", "xx"), ("xx", "kxx"), ("kxx", "cm"), ("cm", "xx"), ("xx", "xx")]
+SCOPE_SUMS = [("add", "m", "xx"), ("add", "xx", "m"), ("sub", "xx", "cm"), ("sub", "kxx", "xx")]
+
 _GUARD = None
 
 
@@ -139,7 +159,24 @@ def init_worker():
     if any(v is None for v in R.SPELL.values()):
         raise HarnessError("ambiguous unit spellings in the tables: units() text cannot be read back")
     isolation.tables_snapshot()
+    isolation.class_state_snapshot(_unit_classes())
     _GUARD = _guard_state()
+
+
+def _unit_classes():
+    """every class defined in a scinumtools.units.* module (class-level containers / mutable defaults of these are
+    restored between cases, so a history never leaks into the next case)"""
+    import sys
+    import inspect
+    import scinumtools.units  # noqa: F401
+    out = []
+    for name in sorted(sys.modules):
+        if name == "scinumtools.units" or name.startswith("scinumtools.units."):
+            mod = sys.modules[name]
+            for _, c in sorted(vars(mod).items(), key=lambda kv: kv[0]):
+                if inspect.isclass(c) and (c.__module__ or "").startswith("scinumtools.units") and c not in out:
+                    out.append(c)
+    return out
 
 
 def _guard_state():
@@ -396,6 +433,8 @@ def check_case(case):
     k = case["k"]
     if k == "chain":
         return check_chain(case)
+    if k == "scopes":
+        return check_scopes(case)
     tags = _tags(case)
     sub = dict(construct="construct", bin=dict(add="sum", sub="sum", mul="product", div="quotient").get(
         case.get("op"), "?"), num="exact-factor", neg="negation", pow="power", to="conversion", rebase="rebase")[k]
@@ -681,6 +720,125 @@ def _chains(tier):
             yield dict(k="chain", a=a, steps=h)
 
 
+# ------------------------------------------------------------------------------------------------ scope histories
+def _scope_factor(unit, d):
+    """factor of a unit text of the scope alphabet to base dimensions (m) while definition d is registered"""
+    f = d[1] if d[0] == "dict" else d[1] * {"cm": 0.01, "m": 1.0}[d[2]]
+    return {"m": 1.0, "cm": 0.01, "xx": f, "kxx": 1e3 * f}[unit]
+
+
+def _scope_units(d):
+    from scinumtools.units import Quantity
+    if d[0] == "dict":
+        return {SCOPE_SYMBOL: {"magnitude": d[1], "dimensions": [1, 0, 0, 0, 0, 0, 0, 0], "prefixes": True}}
+    return {SCOPE_SYMBOL: Quantity(d[1], d[2])}
+
+
+def _scope_ops(d):
+    pref = d[0] == "dict"
+    for u, v in SCOPE_CONVERSIONS:
+        if pref or not (u.startswith("k") or v.startswith("k")):
+            yield ("to", u, v)
+    for op, u, v in SCOPE_SUMS:
+        if pref or not (u.startswith("k") or v.startswith("k")):
+            yield (op, u, v)
+
+
+def _run_scopes(case):
+    """-> None, or (scope index, op, expected, observed, behaviour) of the first step that breaks the statement"""
+    from scinumtools.units import Quantity, UnitEnvironment
+    v, e = case["a"]["v"], case["a"]["e"]
+    kw = {} if e is None else {e[0]: e[1]}
+    vals = np.asarray(v, dtype=float)
+
+    def mk(u):
+        return Quantity(list(v) if isinstance(v, list) else v, u, **kw)
+
+    for si, d in enumerate(case["defs"]):
+        with UnitEnvironment(_scope_units(d)):
+            for op, u, w in _scope_ops(d):
+                fu, fw = _scope_factor(u, d), _scope_factor(w, d)
+                a = mk(u)
+                ea = _abse(a)
+                ra = None if ea is None else _rele(a, case)
+                if op == "to":
+                    res = a.to(w)
+                    fr = fw
+                    want_units = w
+                else:
+                    b = mk(w)
+                    eb = _abse(b)
+                    res = a + b if op == "add" else a - b
+                    fr = fu
+                    want_units = u
+                er = _abse(res)
+                obs = dict(scope=si, definition=d, step=[op, u, w], operand_abse=_l(ea), abse=_l(er),
+                           units=res.units(), value=_l(res.value()))
+                if res.units() != want_units:
+                    raise HarnessError("scope history: result units %r, expected %r" % (res.units(), want_units))
+                if not _nonneg(er):
+                    return (si, op, "abse() >= 0", obs, "negative-uncertainty")
+                if ea is None:
+                    if not _exact(er):
+                        return (si, op, "exact result (abse() None)", obs, "not-exact")
+                    continue
+                if op == "to":
+                    want = ea * fu / fw
+                else:
+                    want = (ea * fu + eb * fw) / fu
+                if er is None:
+                    return (si, op, dict(abse=_l(want)), obs, "uncertainty-lost")
+                if _hasnan(er):
+                    return (si, op, dict(abse=_l(want)), obs, "nan-uncertainty")
+                if not _eq(er, want):
+                    return (si, op, dict(abse=_l(want)), obs, "wrong-scale" if op == "to" else "wrong-sum")
+                if op == "to":
+                    rr = _rele(res, case)
+                    nz = vals != 0
+                    if np.any(nz) and (rr is None or ra is None or not _eq_where(rr, ra, nz)):
+                        obs["rele_before"], obs["rele_after"] = _l(ra), _l(rr)
+                        return (si, op, "rele() unchanged", obs, "rele-changed")
+    return None
+
+
+def _scope_restore():
+    isolation.tables_restore()
+    return isolation.class_state_restore()
+
+
+def check_scopes(case):
+    _scope_restore()
+    out = outcome(_run_scopes, case)
+    _scope_restore()
+    tags = ["kind:scopes", "scopes:%d" % len(case["defs"])]
+    if case["a"]["e"] is not None:
+        tags.append(case["a"]["e"][0] + "-input")
+    if _vals(case["a"]).ndim:
+        tags.append("array")
+    if out[0] == "err":
+        if out[1] == "HarnessError":
+            raise HarnessError(out[2])
+        return failure("scopes", case, "every conversion gives a result", list(out[1:]), tags=tags,
+                       behaviour="raises:" + out[1]), "raised"
+    if out[1] is None:
+        return None, "ok"
+    si, op, expected, observed, behaviour = out[1]
+    tags += ["step:" + op, "in-scope:%d" % si, "redefined-symbol" if si else "first-definition"]
+    return failure("scopes", dict(case, failing_scope=si), expected, observed, tags=tags, behaviour=behaviour), \
+        "bad:" + behaviour
+
+
+def _scope_cases(tier):
+    n = SCOPE_HISTORY[tier]
+    hist = [[]]
+    for _ in range(n):
+        hist = [h + [d] for h in hist for d in SCOPE_DEFS if not h or h[-1] != d]
+    for h in hist:
+        for v in SCOPE_VALUES:
+            for e in SCOPE_ERRORS:
+                yield dict(k="scopes", defs=h, a=dict(v=v, e=e, u=[]))
+
+
 # ------------------------------------------------------------------------------------------------ enumeration
 def _cases(tier):
     thorough = tier == "thorough"
@@ -799,6 +957,7 @@ def _cases(tier):
         for a in _operands_z(u):
             yield dict(k="to", a=a, v=_ju(u), tf="list")       # target = list of base-dimension exponents
     yield from _chains(tier)
+    yield from _scope_cases(tier)
 
 
 def plan(tier, seed):
@@ -823,6 +982,12 @@ def run_shard(desc):
             uncertain = True               # every history contains uncertain operands or starts from one
             sh.transitions += len(case["steps"])
             sh.add_extra("chain_steps", len(case["steps"]))
+        if case["k"] == "scopes":
+            nops = sum(len(list(_scope_ops(d))) for d in case["defs"])
+            sh.transitions += nops
+            sh.add_extra("scope_steps", nops)
+            if uncertain and label == "ok":
+                sh.add_extra("scope_histories_uncertain", 1)
         if uncertain:
             sh.nontrivial += 1
         if case["k"] == "bin" and label == "ok:sum":
@@ -845,14 +1010,17 @@ def run_shard(desc):
             sh.sample(case)
     if isolation.tables_restore():
         sh.add_extra("table_leaks_restored", 1)
+    isolation.class_state_restore()
     return sh
 
 
 def replay(rec):
     init_worker()
     isolation.tables_restore()
+    isolation.class_state_restore()
     bad, label = check_case(rec["case"])
     isolation.tables_restore()
+    isolation.class_state_restore()
     return bad
 
 
@@ -883,6 +1051,8 @@ def finish(total, tier, seed):
         "powers": tot("pow:"),
         "negations": tot("neg:"),
         "operation histories": tot("chain:"),
+        "uncertain conversions under a redefined custom symbol": total.extra.get("scope_histories_uncertain", 0)
+            + tot("scopes:bad") + tot("scopes:raised"),
     }
     empty = [name for name, v in need.items() if v == 0]
     if empty:
@@ -903,6 +1073,10 @@ def finish(total, tier, seed):
                                  for a, b in (CONVERSIONS_T if tier == "thorough" else CONVERSIONS)], tolerance=TOL),
         chains=dict(starts=CHAIN_STARTS, steps=CHAIN_STEPS, depth=CHAIN_DEPTH[tier],
                     histories=tot("chain:"), steps_judged=total.extra.get("chain_steps", 0)),
+        scopes=dict(symbol=SCOPE_SYMBOL, definitions=SCOPE_DEFS, scopes_per_history=SCOPE_HISTORY[tier],
+                    values=SCOPE_VALUES, uncertainties=SCOPE_ERRORS, conversions=SCOPE_CONVERSIONS, sums=SCOPE_SUMS,
+                    histories=tot("scopes:"), steps_judged=total.extra.get("scope_steps", 0),
+                    class_state="scinumtools.units.* class-level containers restored between cases"),
         caps_hit=[],
         cases_skipped_because_operand_uncertainty_negative=skipped,
         table_leaks_restored=total.extra.get("table_leaks_restored", 0),
@@ -920,7 +1094,11 @@ MANIFEST = dict(
          "history of depth 3 (thorough 4) over 15 steps (sums with uncertain/exact operands in other prefixes, "
          "reflected and augmented sums, exact factors, uncertain and exact unit-less multiplicands, in-place "
          "conversions m/cm/km, negation) from 4 start quantities, each step judged from what its operands report "
-         "immediately before it (13 152 / 194 784 histories). "
+         "immediately before it (13 152 / 194 784 histories); every ordered pair (thorough: triple) of 4 definitions "
+         "(magnitudes 2, 5, 0.25 as dict with prefixes, 7 cm as Quantity) of one custom symbol registered in "
+         "successive UnitEnvironment scopes x 4 values x {abse, rele, exact}: in each scope to() through custom->m, "
+         "m->custom, custom->kilo-custom, kilo-custom->cm, cm->custom and 4 mixed-unit sums, judged with the factor "
+         "of the current scope (144 / 432 histories, class-level state of scinumtools.units.* restored between cases). "
          "Checked: abse never negative; sums add uncertainties; exact factor scales by |c|; first-order lower bound "
          "for positive uncertain products/quotients; conversion scales abse with the value and keeps rele; exact "
          "operands give exact results.",
